@@ -98,7 +98,8 @@ pub fn spawn_sys(world: &mut World, k: u8, key: u8)
     let k = k as usize % 4;
     if world.resource::<H>().sys[k].is_some() { return; }
     // slots 1 and 3 hold the `ParamSet` form of the callee
-    let id = match k { 0 => by_key!(key, |f| spawn_system(world, f)), 1 => by_key_ps!(key, |f| spawn_system(world, f)), 2 => by_key_cmd!(key, |f| spawn_system(world, f)), _ => by_key_cmd_ps!(key, |f| spawn_system(world, f)) };
+    // (slot 0 alternates between `spawn_system`, `spawn_system_from` and `Commands::spawn_system` by function key)
+    let id = match k { 0 => match key % NKEYS { 0 => spawn_system(world, callee::<0>), 1 => spawn_system_from(world, CallbackSystem::new(callee::<1>)), _ => { let id = world.commands().spawn_system(callee::<2>); world.flush(); id } }, 1 => by_key_ps!(key, |f| spawn_system(world, f)), 2 => by_key_cmd!(key, |f| spawn_system(world, f)), _ => by_key_cmd_ps!(key, |f| spawn_system(world, f)) };
     let mut h = world.resource_mut::<H>();
     h.sys[k] = Some(id);
     h.known.push(id.entity());
